@@ -96,11 +96,29 @@ def c04_s(draw, pid, tier, opts=None):
     # "shadow" an existing reply: same client and service, inserted right before it, so that the
     # stray line arrives while that service really owes an answer
     xs = [j for j, e in enumerate(base["events"]) if e[0] == "X" and e[4] == "cur"]
-    if xs and draw(st.integers(0, 9)) < 6:
+    mode = draw(st.integers(0, 11))
+    if xs and mode < 5:
         j = draw(st.sampled_from(xs))
         stray["id"] = base["events"][j][1]
         stray["svc_name"] = base["events"][j][2]
         stray["pos"] = j
+    elif xs and mode < 9:
+        # "echo": the same service answers the same client once more right after (or a few events after)
+        # its final reply (OK / AGAIN / MORE ...), i.e. when it no longer owes this instance anything
+        j = draw(st.sampled_from(xs))
+        stray["id"] = base["events"][j][1]
+        stray["svc_name"] = base["events"][j][2]
+        stray["kind"] = "not_awaited"
+        stray["pos"] = min(len(base["events"]), j + 1 + draw(st.sampled_from([0, 0, 0, 1, 2])))
+    # a departed client's successor may connect from the very same address and port
+    if draw(st.integers(0, 3)) == 0:
+        first = {}
+        for e in base["events"]:
+            if e[0] == "C" and e[1] != 99:
+                if e[1] in first:
+                    e[2], e[3] = first[e[1]]
+                else:
+                    first[e[1]] = (e[2], e[3])
     base["stray"] = stray
     return base
 
@@ -115,11 +133,16 @@ def stray_line(stray, conf, spec):
     svc = stray.get("svc_name") or svcs[stray["svc_i"] % len(svcs)]
     kind = stray["kind"]
     tag = "%x_%x" % (cid & 0xffffffff, ser)
+    obs = getattr(spec, "observed_tags", {})       # (id, model serial) -> tag text the daemon itself used in its queries
     if kind == "stale":
         tag = "%x_%x" % (cid & 0xffffffff, ser - 1 if ser > 1 else ser + 7)
+        olds = [i for i in spec.all if i.id == cid and i.serial != ser and (cid, i.serial) in obs]
+        if olds:
+            tag = obs[(cid, olds[-1].serial)]    # the tag the departed instance's queries really carried
     elif kind == "stale_any":
         olds = [i.serial for i in spec.all if i.id == cid and i.serial != ser] or [ser + 3]
-        tag = "%x_%x" % (cid & 0xffffffff, olds[stray.get("pick", 0) % len(olds)])
+        pick = olds[stray.get("pick", 0) % len(olds)]
+        tag = obs.get((cid, pick), "%x_%x" % (cid & 0xffffffff, pick))
     elif kind == "stale_shape":
         h = "%x" % ser
         sh = stray.get("shape", "prefix")
@@ -144,7 +167,11 @@ def stray_line(stray, conf, spec):
     # is it really stray?  (the model's reading of the routing rule)
     _, argv = proto.parse_line(line)
     really = True
-    if len(argv) >= 4:
+    if kind in ("stale", "stale_any") and c is not None and c.live and obs.get((cid, ser)) == tag and tag != "%x_%x" % (cid & 0xffffffff, ser):
+        # the daemon gave the departed and the current instance the same tag text (only possible when the
+        # tag scheme is not the documented id_serial counter): a reply meant for the departed one is still stray
+        really = True
+    elif len(argv) >= 4:
         t = proto.parse_tag(argv[2])
         if t is not None:
             inst = spec.live(t[0])
@@ -192,6 +219,15 @@ def run_plain(conf, events, workdir, insert=None):
                 out, in_use, _ = d.step(line)
                 out = [b.decode("latin-1") for b in out]
                 spec.feed_output(i, out)
+                if not hasattr(spec, "observed_tags"):
+                    spec.observed_tags = {}
+                for ln in out:
+                    mm = proto.X_RE.match(ln)
+                    if mm:
+                        idpart = proto.c_strtol(mm.group(2), 16)[0]
+                        cc = spec.live(((idpart + 2 ** 31) % 2 ** 32) - 2 ** 31)
+                        if cc is not None:
+                            spec.observed_tags[(cc.id, cc.serial)] = mm.group(2)
                 steps.append((line, out, in_use))
                 if insert is not None and i >= insert[0] and len(ev) > 1 and ev[1] == insert[2] and ev[0] not in ("X", "x"):
                     info["later"] += 1
@@ -633,15 +669,17 @@ RULE_NAMES = ["r1", "R2", "r3", "Alpha", "beta", "GAMMA", "delta", "a", "B", "c"
 
 @st.composite
 def c11_s(draw, pid, tier, opts=None):
-    svcs = [["login.ex", "login"], ["bot.ex", "dronecheck"]]
+    svcs = [["login.ex", draw(st.sampled_from(["login", "login", "login-ipr"]))], ["bot.ex", "dronecheck"]]
     if draw(st.booleans()):
         svcs.append(["comb.ex", "combined"])
+    svcs = list(draw(st.permutations(svcs)))      # table slot order is independent of the names
+    timeout = draw(st.sampled_from([0, 0, 5]))
     n = draw(st.integers(1, 8)) if draw(st.integers(0, 4)) else 0
     names = draw(st.lists(st.sampled_from(RULE_NAMES), min_size=n, max_size=n, unique_by=lambda s: s.lower()))
     rules = [draw(rule_s(nm, [s[0] for s in svcs])) for nm in names]
     if draw(st.integers(0, 3)) == 0:
         rules.insert(draw(st.integers(0, len(rules))), ["dummy", None, "bogus line"])
-    conf = {"modules": ["iauth_class", "iauth_xquery"], "services": svcs, "timeout": 0, "rules": rules,
+    conf = {"modules": ["iauth_class", "iauth_xquery"], "services": svcs, "timeout": timeout, "rules": rules,
             "logs": [["*.>=info", "file:iauthd.log"]]}
     events = []
     nclients = draw(st.integers(1, 4))
@@ -679,10 +717,25 @@ def c11_s(draw, pid, tier, opts=None):
         if acct is not None:
             suffix = draw(st.sampled_from(["", ":1", ":12345:6"]))
             replies.append(["X", cid, "login.ex", draw(st.sampled_from(["OK %s%s" % (acct, suffix), "OK %s%s" % (acct, suffix), "OK", "AGAIN no"])), "cur"])
-        replies.append(["X", cid, "bot.ex", draw(st.sampled_from(["OK", "OK", "OK", "AGAIN hm"])), "cur"])
+        # a drone-check service may say OK with a token (ignored as an account, but still an OK), may be
+        # unlinked, or may stay silent until the request timeout expires (then nothing it "said" counts)
+        bot = draw(st.sampled_from(["OK", "OK", "OK drone:1", "OK x", "AGAIN hm", "unlinked"] + (["silent", "silent"] if timeout else [])))
+        silent = False
+        if bot == "silent":
+            silent = True
+        elif bot == "unlinked":
+            replies.append(["x", cid, "bot.ex", "cur"])
+        else:
+            replies.append(["X", cid, "bot.ex", bot, "cur"])
         if len(svcs) > 2:
-            replies.append(["X", cid, "comb.ex", draw(st.sampled_from(["OK", "OK", "AGAIN later"])), "cur"])
+            cb = draw(st.sampled_from(["OK", "OK", "OK other:9", "AGAIN later"] + (["silent"] if timeout else [])))
+            if cb == "silent":
+                silent = True
+            else:
+                replies.append(["X", cid, "comb.ex", cb, "cur"])
         sc.extend(draw(st.permutations(replies)))
+        if silent:
+            sc.append(["!", cid])
         events.append(sc)
     order = draw(st.lists(st.integers(0, nclients - 1), max_size=12))
     return {"conf": conf, "events": merge(events, order)}
@@ -738,9 +791,12 @@ def c11_enum_cases():
                     f["trust_username"] = "true"
                 conf = {"modules": ["iauth_class", "iauth_xquery"], "services": [["login.ex", "login"], ["bot.ex", "dronecheck"]], "timeout": 0,
                         "rules": [["r5", f], ["z9", {"class": "fallback"}]], "logs": [["*.>=info", "file:iauthd.log"]]}
-                for fail in (None,) + tuple(sub):
+                for fail in (None,) + tuple(sub) + (("oktoken",) if "xreply_ok" in sub else ()):
                     v = dict(GOOD)
-                    if fail:
+                    if fail == "oktoken":
+                        v["xreply_ok"] = "OK drone:5"     # an OK carrying a token is still an OK from that service
+                        fail = None
+                    elif fail:
                         v[fail] = BAD[fail]
                     ident = ("~" + v["username"]) if trust and fail != "username" and "username" not in sub else v["username"]
                     cid = 31
